@@ -418,3 +418,14 @@ def unused_hashes_block(draw):
             out += [("DUP%d" % draw(st.integers(1, 3)), None), ("PUSH", base), ("MSTORE", None)]
     return out
 
+
+@st.composite
+def failing_block(draw):
+    """blocks whose analysis fails on the pinned tree (contained: the block is kept): the value of PC is never found by the
+    symbolic search (RecursionError).  They matter as *predecessors* of other blocks."""
+    I = lambda *names: [(n, None) for n in names]
+    core = draw(st.sampled_from([I("PC") + [("PUSH", 1)] + I("SSTORE"), I("PC", "DUP1", "ADD"), [("PUSH", 1)] + I("PC", "LT"),
+                                 I("CALLER", "PC", "ADD", "SWAP1"), I("PC", "DUP2", "MSTORE")]))
+    pre = draw(st.sampled_from([[], [("PUSH", 3), ("PUSH", 4), ("ADD", None)], I("DUP1", "ISZERO")]))
+    return pre + core
+
